@@ -326,7 +326,7 @@ func rerouteScenario() *mc.Scenario {
 // time; the application closes every accepted connection twice (a deferred Close plus an explicit
 // one, which net.Conn allows). Whatever the multiplexer keeps between connections must not make
 // a later connection see another connection's bytes or take another connection's route.
-func reuseScenario(first string) *mc.Scenario {
+func reuseScenario(first string, smallReads bool) *mc.Scenario {
 	body := func() {
 		st := &muxState{acceptErrors: map[string]int{}}
 		sched.Cur().State()["st"] = st
@@ -342,7 +342,20 @@ func reuseScenario(first string) *mc.Scenario {
 					st.acceptErrors[who]++
 					return
 				}
-				got, _ := io.ReadAll(c)
+				var got []byte
+				if smallReads {
+					// an application that reads with a buffer shorter than the multiplexer's prefix
+					one := make([]byte, 1)
+					for len(got) < 64 { // (no client sends that much: a longer stream is already wrong)
+						n, err := c.Read(one)
+						got = append(got, one[:n]...)
+						if err != nil {
+							break
+						}
+					}
+				} else {
+					got, _ = io.ReadAll(c)
+				}
 				st.accepts = append(st.accepts, accepted{by: who, got: got})
 				_ = c.Close()
 				_ = c.Close()
@@ -407,7 +420,11 @@ func reuseScenario(first string) *mc.Scenario {
 		}
 		return ""
 	}
-	return &mc.Scenario{Name: fmt.Sprintf("mux-reuse[%q alone, closed twice ; then \"AAy\" and \"BBz\" together, 1-byte reads]", first), Body: body, Check: check, Model: sched.Deviation, NoCache: true}
+	nm := fmt.Sprintf("mux-reuse[%q alone, closed twice ; then \"AAy\" and \"BBz\" together, 1-byte reads]", first)
+	if smallReads {
+		nm = fmt.Sprintf("mux-reuse[%q alone, closed twice ; then \"AAy\" and \"BBz\" together, 1-byte reads ; the application reads byte by byte]", first)
+	}
+	return &mc.Scenario{Name: nm, Body: body, Check: check, Model: sched.Deviation, NoCache: true}
 }
 
 // parkedScenario: nobody accepts on one of the listeners (a busy or absent consumer), so a connection
@@ -620,7 +637,8 @@ func basePlans(tier string) []mc.Plan {
 		ps = append(ps, mc.Plan{Scen: parkedScenario(idle), Bounds: []int{0, 1, 2}, Split: true})
 	}
 	for _, first := range []string{"BBx", "AAx"} {
-		ps = append(ps, mc.Plan{Scen: reuseScenario(first), Bounds: []int{0, 1, 2}, Split: true})
+		ps = append(ps, mc.Plan{Scen: reuseScenario(first, false), Bounds: []int{0, 1, 2}, Split: true})
+		ps = append(ps, mc.Plan{Scen: reuseScenario(first, true), Bounds: []int{0, 1}})
 	}
 	pats := [][]string{{}, {"a"}, {"", "b"}, {"ab", "c"}, {"a", "", "bc"}}
 	for _, p := range pats {
